@@ -426,7 +426,7 @@ void make_items(const Options& o, std::vector<Item>& items)
                           in.name == "ordered_guarded<Pair,shared_timed_mutex>"));
         if (!pick) continue;
         std::vector<OpI> al;
-        for (int c : {LOAD, STORE, ASSIGN, MODIFY, MODIFY_RET, READ, READ_RET, EXCHANGE, CAS})
+        for (int c : {LOAD, STORE, ASSIGN, MODIFY, MODIFY_RET, READ, READ_RET, EXCHANGE, CAS, CONVERT})
             if (in.has(c)) al.push_back(OpI{(uint8_t)c, c == CAS ? (0 * 4 + 2) : (c == STORE ? 5 : c == ASSIGN ? 6 : c == EXCHANGE ? 7 : 0)});
         for (size_t a = 0; a < al.size(); a++)
             for (size_t b = a; b < al.size(); b++) {
